@@ -467,6 +467,13 @@ func vCredentials(depth int) ([]vCred, error) {
 	cs = append(cs, vBearer("signed,Allow=null", "signed", nil,
 		vRawJWT(`{"alg":"HS256","typ":"JWT"}`, `{"Allow":null,"Nonce":"AAAA","ExpiresAt":"0001-01-01T00:00:00Z"}`, vKey)))
 
+	// --- correctly signed tokens over LITERAL claim bytes (not built by the repository's helpers)
+	lits, err := vLiteralCredentials()
+	if err != nil {
+		return nil, err
+	}
+	cs = append(cs, lits...)
+
 	// --- credentials that must grant nothing
 	admin, err := mint(signer, perms.AllPerms, 0)
 	if err != nil {
@@ -999,6 +1006,7 @@ type vCase struct {
 	// history part only
 	History []string `json:"history,omitempty"`
 	Step    int      `json:"step,omitempty"`
+	Variant int      `json:"token_variant,omitempty"`
 }
 
 type vVerdict struct {
@@ -1062,7 +1070,7 @@ func TestVerifC19(t *testing.T) {
 	rep := vx.NewReport(vPropID, "model_checking")
 	rep.Rule = "complete product: every method in the dispatch table of the real rpc.Server (populated by the node's registerEndpoints) x every credential of an " +
 		"explicit alphabet (no token; tokens minted by the repository's own functions for all 16 subsets of {public,read,write,admin}, the four named classes, " +
-		"unknown permission names; expired, other key, other algorithm, alg=none, unsigned, payload swap, non-object payloads, garbage, header malformations, " +
+		"unknown permission names; correctly signed tokens over LITERAL claim bytes - the claim names issued so far with ExpiresAt past/future/absent/zero per level, key-case, snake_case and duplicate-key variants, judged against the harness's own reference reading of the claims; expired, other key, other algorithm, alg=none, unsigned, payload swap, non-object payloads, garbage, header malformations, " +
 		"every truncation of an admin token and single-bit flips of it (quick: one bit per signature byte and one per 4 header/payload bytes; thorough: every bit)) x transport {http header, http ?token=, http batch, websocket} x server configuration " +
 		"{auth on, auth on + CORS, auth off (+ metrics in thorough)}. A cell is distinct by (configuration, transport, credential, method) and non-trivial when the " +
 		"server gave a decisive answer (stub reached / 'missing permission' / 401); channel methods over plain http are counted as trivial. " +
@@ -1072,6 +1080,7 @@ func TestVerifC19(t *testing.T) {
 		"the perm tag of a method is read from the API struct the node registers; namespaces are attributed to API structs by their exact method sets",
 		"HS256 with a fixed 32-byte key as in nodebuilder/node/auth.go; HMAC/SHA-256 strength itself is not examined",
 		"which methods are sensitive is fixed by the committed table /verif/policy/rpc_min_perms.txt (a reading of the property text); methods not listed there are reported UNCLASSIFIED",
+		"literal-claims credentials: what a claim set grants is computed by the harness's reference of the current decoding rule (keys match Allow/Nonce/ExpiresAt case-insensitively, last occurrence wins, unknown keys such as expires_at ignored); a deliberate change of the claim names needs that reference updated",
 		"expiry uses the real clock: in the matrix expired tokens are at least one minute in the past, valid ones 24 h in the future",
 		"history part: real time, no wall-clock step during a run; a use whose token expires while the request is in flight is not judged; waits sleep until ExpiresAt + margin",
 	}
@@ -1337,7 +1346,8 @@ func TestVerifC19(t *testing.T) {
 		"cells_with_token_state_as_the_history_intends": hst.AsIntended, "cells_token_state_shifted_by_scheduling_delay(judged_by_actual_state)": hst.NotAsIntended,
 		"histories_rerun_after_transport_error": hst.Retries,
 		"ttl_T1_ms": vHistTTL1.Milliseconds(), "ttl_T2_ms": vHistTTL2.Milliseconds(), "wait_margin_ms": vHistMargin.Milliseconds(),
-		"token_perms": "T1,T2: public+read+write; expired-at-mint: all four", "complete": hst.Complete, "wall_s": hst.Wall,
+		"token_perms": "T1,T2: public+read+write; expired-at-mint: all four",
+		"token_construction": "history index mod 4: bit0 clear = T1 signed over literal claim bytes {Allow,Nonce,ExpiresAt} and T2 minted by authtoken.NewSignedJWT, bit0 set = the reverse; bit1 clear = expired-at-mint token from literal claim bytes, set = minted by the helper; expiry always read by the harness's reference reading of the claim bytes", "complete": hst.Complete, "wall_s": hst.Wall,
 	})
 	if hst.Sample != nil {
 		rep.AddSample(hst.Sample)
@@ -1423,7 +1433,7 @@ func vReplay(t *testing.T, rep *vx.Report, path string) {
 		got := 0
 		var last *vVerdict
 		for i := 0; i < 5; i++ {
-			res, err := vRunHistory(cs.Cfg, cs.History)
+			res, err := vRunHistory(cs.Cfg, cs.History, cs.Variant)
 			if err != nil {
 				t.Fatalf("replay: %v", err)
 			}
